@@ -38,7 +38,7 @@ LEVEL_NOTE = 'Vincenty accuracy (~0.1 mm) and float arithmetic bound the toleran
 TECHNIQUE = 'differential oracle (independent Vincenty geodesics) on return values'
 
 KINDS = ['random', 'antimeridian', 'polar', 'near-antipodal', 'same-longitude',
-         'same-latitude', 'short', 'equator', 'whole-degrees']
+         'same-latitude', 'short', 'equator', 'whole-degrees', 'on-the-180th-meridian']
 
 
 def plan(tier, seed):
@@ -84,6 +84,15 @@ def gen_pair(rng, kind):
         return (la, rng.uniform(-180, 180), la, rng.uniform(-180, 180))
     if kind == 'equator':
         return (0.0, rng.uniform(-180, 180), 0.0, rng.uniform(-180, 180))
+    if kind == 'on-the-180th-meridian':
+        # a way-point exactly on the date line, written as +180 or as -180
+        lo = rng.choice([180.0, -180.0])
+        a = (rng.uniform(-70, 70), lo)
+        b = (rng.uniform(-70, 70), rng.choice([rng.uniform(150, 179.9), rng.uniform(-179.9, -150),
+                                                -lo]))
+        if b[1] == -lo and abs(a[0] - b[0]) < 1e-3:
+            b = (b[0] + 1.0, b[1])
+        return (a[0], a[1], b[0], b[1]) if rng.random() < 0.5 else (b[0], b[1], a[0], a[1])
     if kind == 'whole-degrees':
         # way-points typed in by hand: small whole numbers of degrees (also 0, -1, -2)
         while True:
